@@ -21,6 +21,7 @@ import (
 	"encoding/binary"
 	"fmt"
 	"io"
+	"math"
 	"sort"
 	"sync"
 	"sync/atomic"
@@ -633,7 +634,7 @@ func (i *Snapshot) readSegmentSnapshot(br *bufio.Reader) (bytesRead int64, ss *s
 
 	// read ver
 	verBuf := make([]byte, 4)
-	sz, err = br.Read(verBuf)
+	sz, err = io.ReadFull(br, verBuf)
 	if err != nil {
 		return bytesRead, nil, fmt.Errorf("error reading snapshot %d: %w", i.epoch, err)
 	}
@@ -671,12 +672,12 @@ func (i *Snapshot) readSegmentSnapshot(br *bufio.Reader) (bytesRead int64, ss *s
 	bytesRead += int64(sz)
 
 	if delLen > 0 {
-		deletedBytes := make([]byte, int(delLen))
-		sz, err = io.ReadFull(br, deletedBytes)
+		var deletedBytes []byte
+		deletedBytes, err = readBytes(br, delLen)
 		if err != nil {
 			return bytesRead, nil, fmt.Errorf("error reading snapshot %d: %w", i.epoch, err)
 		}
-		bytesRead += int64(sz)
+		bytesRead += int64(len(deletedBytes))
 
 		rr := bytes.NewReader(deletedBytes)
 		deletedBitmap := roaring.NewBitmap()
@@ -704,13 +705,28 @@ func readVarLenString(r *bufio.Reader) (n int, str string, err error) {
 	}
 	n += sz
 
-	strBytes := make([]byte, strLen)
-	sz, err = r.Read(strBytes)
+	strBytes, err := readBytes(r, strLen)
 	if err != nil {
 		return n, "", err
 	}
-	n += sz
+	n += len(strBytes)
 	return n, string(strBytes), nil
+}
+
+// readBytes reads exactly n bytes from r. The length comes from the file and
+// cannot be trusted before the checksum has been verified, so the buffer
+// grows with the data that is actually there: a damaged length field yields
+// an error, not a panic or a huge allocation.
+func readBytes(r io.Reader, n uint64) ([]byte, error) {
+	if n > math.MaxInt64 {
+		return nil, fmt.Errorf("invalid length %d", n)
+	}
+	var buf bytes.Buffer
+	_, err := io.CopyN(&buf, r, int64(n))
+	if err != nil {
+		return nil, err
+	}
+	return buf.Bytes(), nil
 }
 
 func (i *Snapshot) DocumentValueReader(fields []string) (
